@@ -61,6 +61,7 @@ structure Eng where
   locks : Table := {}
   exit : Nat := 0
   compress : Bool := false
+  held : Option Nat := none      -- internal guard set held by the driver's `whold` op
 
 inductive Res where
   | ok | readonly | exists_ | enoent | eexist | err | busy | rejected | applyFailed
